@@ -41,6 +41,10 @@ pub enum Form {
     /// names they go to; names share stems and extensions, and a name may be written twice), then
     /// every file is read back: each must hold the diagram written to it last
     FileMulti,
+    /// the diagrams of `g` and `Sc::more` are written by concurrent threads of one child process
+    /// to different names in one directory; the system-call seam's thread scheduler lets exactly
+    /// one of them run at a time and switches at every file operation according to `picks`
+    FileConcurrent { picks: Vec<u8>, plan: crate::cli::SysPlan },
 }
 
 #[derive(Clone, Debug, Serialize, Deserialize, PartialEq)]
@@ -341,9 +345,9 @@ impl C13 {
                             let sub_sc = Sc { g: spec.clone(), more: vec![], ..sc.clone() };
                             let mut sub = Ctx { sc: &sub_sc, orig: spec.to_dg(), out: &mut *ctx.out, tensor: None };
                             let before = sub.out.violations.len();
-                            sub.judge_dg(d2, &format!("file_multi.{name}"));
+                            sub.judge_dg(d2, "file_multi");
                             for v in sub.out.violations[before..].iter_mut() {
-                                v.detail = format!("after the writes {:?}: {}", order, v.detail);
+                                v.detail = format!("after the writes {:?}, file '{name}': {}", order, v.detail);
                             }
                         }
                         Caught::Ok(Err(e)) => ctx.out.violations.push(
@@ -356,6 +360,101 @@ impl C13 {
                     }
                     if !ctx.out.violations.is_empty() {
                         break;
+                    }
+                }
+                drop(scratch);
+            }
+            Form::FileConcurrent { picks, plan } => {
+                let scratch = crate::cli::Scratch::new(&env.scratch, "c13c");
+                let dir = scratch.dir.clone();
+                let io = dir.join("io");
+                let _ = std::fs::create_dir_all(&io);
+                ctx.out.engine = "child_process";
+                ctx.out.probe("file_concurrent_writers");
+                let mut writes: Vec<(&str, &GSpec)> = vec![(sc.first_name.as_str(), &sc.g)];
+                writes.extend(sc.more.iter().map(|(g, n)| (n.as_str(), g)));
+                let spec: Vec<(GSpec, String, bool)> = writes.iter().map(|(n, g)| ((*g).clone(), io.join(n).to_string_lossy().to_string(), sc.hash_backend)).collect();
+                let specf = dir.join("spec.json");
+                std::fs::write(&specf, serde_json::to_string(&spec).unwrap()).expect("scratch write");
+                let child_seed = dec.draw64("child.seed");
+                let mut o = std::process::Command::new(&env.self_exe);
+                o.arg("--child-write-concurrent").arg(&specf).arg(child_seed.to_string()).stdin(std::process::Stdio::null());
+                let log = crate::cli::arm_sys(&mut o, &io, plan, false);
+                o.env("QFAULT_SCHED", format!("n={};s={}", writes.len(), picks.iter().map(|p| p.to_string()).collect::<Vec<_>>().join(",")));
+                let o = crate::cli::output_locked(&mut o).expect("spawn child");
+                let events = crate::cli::parse_syslog(&log);
+                let _ = std::fs::remove_file(&log);
+                // the interleaving that actually happened: sequence of (thread, operation)
+                let mut il = 0x11u64;
+                let mut switches = 0;
+                let mut prev = -2;
+                let mut fired = 0;
+                for e in &events {
+                    il = mix(il, ((e.thread as i64 as u64) << 8) ^ e.op as u64);
+                    ctx.out.ev_str(&format!("{}{}{} {} {}", e.thread, e.op, e.tok, e.asked, e.result));
+                    if e.thread != prev && prev != -2 {
+                        switches += 1;
+                    }
+                    prev = e.thread;
+                    if let Some(name) = e.fault_name() {
+                        ctx.out.fault(&name);
+                        fired += 1;
+                    }
+                }
+                ctx.out.distinct.insert("io_interleaving".into(), il);
+                ctx.out.count("io_thread_switches", switches);
+                ctx.out.steps += events.len() as u64;
+                if switches >= 2 {
+                    ctx.out.probe("file_concurrent_interleaved");
+                }
+                let txt = String::from_utf8_lossy(&o.stdout).to_string();
+                let order: Vec<&str> = writes.iter().map(|w| w.0).collect();
+                if !o.status.success() || !txt.contains("DONE") {
+                    panic!("harness: concurrent-writer child failed: status {:?} stdout {txt} stderr {}", o.status, String::from_utf8_lossy(&o.stderr));
+                }
+                for (i, (name, spec)) in writes.iter().enumerate() {
+                    let line = txt.lines().find(|l| l.starts_with(&format!("RESULT {i} "))).unwrap_or("");
+                    if !line.contains(" ok") {
+                        if fired == 0 {
+                            ctx.out.violations.push(Violation::new("write_failed_without_fault", format!("concurrent writers {:?}: write_graph to '{name}' failed with no fault fired: {line}", order)).with("form", "file_concurrent"));
+                        } else {
+                            ctx.out.probe("fault_led_to_reported_failure");
+                        }
+                        continue;
+                    }
+                    // reported success: the file must hold this writer's diagram, whatever the others did
+                    let path = io.join(name);
+                    let core = Core::new(dec, 1);
+                    let hb = sc.decode_hash_backend;
+                    let (res, core) = with_sim(core, move || {
+                        if !path.exists() {
+                            return Err("the file does not exist".to_string());
+                        }
+                        if hb {
+                            quizx::json::read_graph::<quizx::hash_graph::Graph>(&path).map(|g| Dg::of(&g)).map_err(|e| e.to_string())
+                        } else {
+                            quizx::json::read_graph::<quizx::vec_graph::Graph>(&path).map(|g| Dg::of(&g)).map_err(|e| e.to_string())
+                        }
+                    });
+                    dec = core.dec;
+                    ctx.out.steps += 1;
+                    match res {
+                        Caught::Ok(Ok(d2)) => {
+                            let sub_sc = Sc { g: (*spec).clone(), more: vec![], ..sc.clone() };
+                            let mut sub = Ctx { sc: &sub_sc, orig: spec.to_dg(), out: &mut *ctx.out, tensor: None };
+                            let before = sub.out.violations.len();
+                            sub.judge_dg(d2, "file_concurrent");
+                            for v in sub.out.violations[before..].iter_mut() {
+                                v.detail = format!("concurrent writers {:?}, file '{name}': {}", order, v.detail);
+                            }
+                        }
+                        Caught::Ok(Err(e)) => ctx.out.violations.push(
+                            Violation::new("concurrent_writer_reported_success_but_file_bad", format!("concurrent writers {:?} (different names, one directory): write_graph to '{name}' returned Ok but the file cannot be read back: {e}", order)).with("form", "file_concurrent"),
+                        ),
+                        Caught::Panic(m) => ctx.out.violations.push(
+                            Violation::new("concurrent_writer_reported_success_but_file_bad", format!("concurrent writers {:?}: read_graph('{name}') panics: {m}", order)).with("form", "file_concurrent"),
+                        ),
+                        Caught::Budget => {}
                     }
                 }
                 drop(scratch);
@@ -718,6 +817,63 @@ pub fn child_read_graph(file: &str, hash_backend: bool, seed: u64, dump: &str) -
     0
 }
 
+/// Child-process entry: several threads write their diagrams to their paths concurrently, under
+/// the system-call seam's thread scheduler (one thread runs at a time, switches at file operations).
+pub fn child_write_concurrent(spec: &str, seed: u64) -> i32 {
+    crate::simcore::install_panic_hook();
+    let txt = std::fs::read_to_string(spec).expect("spec");
+    let jobs: Vec<(GSpec, String, bool)> = serde_json::from_str(&txt).expect("spec json");
+    type Hook = unsafe extern "C" fn(i32);
+    let look = |name: &str| -> Option<Hook> {
+        let c = std::ffi::CString::new(name).unwrap();
+        let p = unsafe { libc::dlsym(libc::RTLD_DEFAULT, c.as_ptr()) };
+        if p.is_null() {
+            None
+        } else {
+            Some(unsafe { std::mem::transmute::<*mut libc::c_void, Hook>(p) })
+        }
+    };
+    let (begin, end) = match (look("qfault_thread_begin"), look("qfault_thread_end")) {
+        (Some(b), Some(e)) => (b, e),
+        _ => {
+            println!("NOSHIM");
+            return 3;
+        }
+    };
+    let mut handles = vec![];
+    for (i, (g, path, hb)) in jobs.into_iter().enumerate() {
+        handles.push(std::thread::spawn(move || {
+            unsafe { begin(i as i32) };
+            let core = Core::new(Decider::seeded(mix(seed, i as u64)), 1);
+            let p = std::path::PathBuf::from(path);
+            let (r, _core) = with_sim(core, move || {
+                if hb {
+                    let gg: quizx::hash_graph::Graph = g.build();
+                    quizx::json::write_graph(&gg, &p)
+                } else {
+                    let gg: quizx::vec_graph::Graph = g.build();
+                    quizx::json::write_graph(&gg, &p)
+                }
+            });
+            unsafe { end(i as i32) };
+            match r {
+                Caught::Ok(Ok(())) => format!("RESULT {i} ok"),
+                Caught::Ok(Err(e)) => format!("RESULT {i} err {e}"),
+                Caught::Panic(m) => format!("RESULT {i} panic {m}"),
+                Caught::Budget => format!("RESULT {i} budget"),
+            }
+        }));
+    }
+    for h in handles {
+        match h.join() {
+            Ok(l) => println!("{l}"),
+            Err(_) => println!("RESULT ? thread-panicked"),
+        }
+    }
+    println!("DONE");
+    0
+}
+
 impl Property for C13 {
     type Sc = Sc;
     fn id(&self) -> &'static str {
@@ -727,7 +883,7 @@ impl Property for C13 {
         "exploration"
     }
     fn rule(&self) -> String {
-        "decider builds a diagram (<=10 spiders Z/X and structurally H-boxes, <=3 inputs and <=3 outputs, bare and Hadamard wires between boundaries, both edge types, phases with denominators up to 256 and a few beyond, unique / colliding / negative / fractional coordinates, scalar sqrt2^p w^k times (1+e^{ia}) factors) in the vector or hash backend, and then every RandomState key of every map created in encode_graph and in each of several independent decode_graph calls (so JSON member order, decoded vertex numbering and edge insertion order are recorded decisions); the file form writes through write_graph/read_graph under no fault, ENOSPC (/dev/full), a torn write at a decider-chosen byte offset (RLIMIT_FSIZE in a child process), missing directory, target is a directory, and (sub-batch file_sys) write_graph resp. read_graph in a child process under the system-call seam (LD_PRELOAD shim: short writes / short reads, EINTR and errno failures EIO/ENOSPC/EDQUOT/EMFILE/... at decider-chosen calls; diagrams above the 8 KiB buffer size in a sixth of the runs). Oracle: anchored isomorphism (inputs/outputs in order, types, phases, edge types, coordinates), exact scalar for sqrt2^p w^k and 1e-9 relative otherwise, tensor equality where evaluable, and decodes under different hash orders isomorphic to each other. Sub-batch file_multi: a history of 2..5 write_graph calls into one directory under names that share stems and extensions (g.qgraph, g.tmp, g, g.0, g.1, g.qgraph.tmp, ...; a name may repeat), after which every file must hold the diagram written to it last. ENOSPC targets are symbolic links to /dev/full in the scratch directory (a target the code replaced by a complete file of its own is judged by content). Scalars of the general classes reach 2^+-1000. Under faults only a reported success with a missing/undecodable/different file is a violation. Non-trivial: >=2 boundaries, >=1 Hadamard edge, >=1 non-zero phase, and a decoded numbering that differs from the original. Distinct by (scenario digest, event digest).".into()
+        "decider builds a diagram (<=10 spiders Z/X and structurally H-boxes, <=3 inputs and <=3 outputs, bare and Hadamard wires between boundaries, both edge types, phases with denominators up to 256 and a few beyond, unique / colliding / negative / fractional coordinates, scalar sqrt2^p w^k times (1+e^{ia}) factors) in the vector or hash backend, and then every RandomState key of every map created in encode_graph and in each of several independent decode_graph calls (so JSON member order, decoded vertex numbering and edge insertion order are recorded decisions); the file form writes through write_graph/read_graph under no fault, ENOSPC (/dev/full), a torn write at a decider-chosen byte offset (RLIMIT_FSIZE in a child process), missing directory, target is a directory, and (sub-batch file_sys) write_graph resp. read_graph in a child process under the system-call seam (LD_PRELOAD shim: short writes / short reads, EINTR and errno failures EIO/ENOSPC/EDQUOT/EMFILE/... at decider-chosen calls; diagrams above the 8 KiB buffer size in a sixth of the runs). Oracle: anchored isomorphism (inputs/outputs in order, types, phases, edge types, coordinates), exact scalar for sqrt2^p w^k and 1e-9 relative otherwise, tensor equality where evaluable, and decodes under different hash orders isomorphic to each other. Sub-batch file_multi: a history of 2..5 write_graph calls into one directory under names that share stems and extensions (g.qgraph, g.tmp, g, g.0, g.1, g.qgraph.tmp, ...; a name may repeat), after which every file must hold the diagram written to it last. Sub-batch file_concurrent: 2..3 threads of one child process write different diagrams to different names in one directory; the system-call seam's thread scheduler lets exactly one of them run at a time and switches at every file operation (open / write / close / rename / unlink) according to a decider-drawn list, so the interleaving - including what the writers do in memory between two calls - replays; every writer that reports success must find its own diagram in its file. ENOSPC targets are symbolic links to /dev/full in the scratch directory (a target the code replaced by a complete file of its own is judged by content). Scalars of the general classes reach 2^+-1000. Under faults only a reported success with a missing/undecodable/different file is a violation. Non-trivial: >=2 boundaries, >=1 Hadamard edge, >=1 non-zero phase, and a decoded numbering that differs from the original. Distinct by (scenario digest, event digest).".into()
     }
     fn assumptions(&self) -> Vec<String> {
         vec![
@@ -747,6 +903,7 @@ impl Property for C13 {
             SubBatch { name: "file_torn", quick: 160, thorough: 4_000 },
             SubBatch { name: "file_sys", quick: 1_500, thorough: 30_000 },
             SubBatch { name: "file_multi", quick: 3_000, thorough: 60_000 },
+            SubBatch { name: "file_concurrent", quick: 1_200, thorough: 24_000 },
         ]
     }
     fn expected_probes(&self) -> Vec<&'static str> {
@@ -776,6 +933,12 @@ impl Property for C13 {
                 _ => Fault::OutIsDir,
             }),
             "file_multi" => Form::FileMulti,
+            "file_concurrent" => {
+                let picks = (0..d.choose("fc.len", 60)).map(|_| d.choose("fc.pick", 4) as u8).collect();
+                // short transfers and EINTR only in a third of the runs, nothing else: the subject is the interleaving
+                let plan = if d.coin("fc.plan", 1, 3) { crate::cli::gen_sysplan(d, false) } else { Default::default() };
+                Form::FileConcurrent { picks, plan }
+            }
             "file_sys" => {
                 let hard = d.coin("sys.hard", 1, 3);
                 let plan = crate::cli::gen_sysplan(d, hard);
@@ -783,7 +946,20 @@ impl Property for C13 {
             }
             _ => Form::File(Fault::OutEfbig(d.choose("efbig", if large { 30_000 } else { 3000 }) as u64)),
         };
-        let (more, first_name) = if sub == "file_multi" {
+        let (more, first_name) = if sub == "file_concurrent" {
+            // 2..3 writers, pairwise different names from a small pool (shared stems)
+            let k = 1 + d.choose("fc.k", 2);
+            let mut names: Vec<&str> = vec![];
+            while names.len() < k + 1 {
+                let n = *d.pick("fc.name", NAMES);
+                if !names.contains(&n) {
+                    names.push(n);
+                }
+            }
+            let first = names[0].to_string();
+            let more = (0..k).map(|i| (gen::json_diagram_sized(d, false), names[i + 1].to_string())).collect();
+            (more, first)
+        } else if sub == "file_multi" {
             let k = 1 + d.choose("fm.k", 4);
             // a small pool of names per run, so that stems collide and names repeat
             let pool: Vec<&str> = (0..3 + d.choose("fm.pool", 3)).map(|_| *d.pick("fm.name", NAMES)).collect();
@@ -856,6 +1032,15 @@ impl Property for C13 {
             let mut m = sc.more.clone();
             m.remove(i);
             c.push(Sc { more: m, ..sc.clone() });
+        }
+        if let Form::FileConcurrent { picks, plan } = &sc.form {
+            if !picks.is_empty() {
+                c.push(Sc { form: Form::FileConcurrent { picks: vec![], plan: plan.clone() }, ..sc.clone() });
+                c.push(Sc { form: Form::FileConcurrent { picks: picks[..picks.len() / 2].to_vec(), plan: plan.clone() }, ..sc.clone() });
+            }
+            if !plan.is_empty() {
+                c.push(Sc { form: Form::FileConcurrent { picks: picks.clone(), plan: Default::default() }, ..sc.clone() });
+            }
         }
         match &sc.form {
             Form::File(Fault::SysWrite(p)) => {
